@@ -1,7 +1,7 @@
 // target: kiki/src/pipeline/sort_and_get_index_updater.rs
 // leaves: sort_and_get_index_updater (props C17 C14 C04 C11)
 // covers leaf_sort_and_get_index_updater: fn sort_and_get_index_updater, fn get_sorted_indexed, fn get_index_updater, fn get_index_changes
-// bound: all vectors of length <= 6 over {0, 1, 2, 3}
+// bound: all vectors of length <= 6 (<= 8 in the thorough tier) over {0, 1, 2, 3}
 #[cfg(test)]
 mod __vx_leafcheck {
     use super::*;
@@ -10,7 +10,8 @@ mod __vx_leafcheck {
     fn leaf_sort_and_get_index_updater() {
         let mut all: Vec<Vec<u8>> = vec![vec![]];
         let mut frontier: Vec<Vec<u8>> = vec![vec![]];
-        for _ in 0..6 {
+        let maxlen = if std::env::var("VX_LEAF_THOROUGH").is_ok() { 8 } else { 6 };
+        for _ in 0..maxlen {
             let mut next = vec![];
             for v in &frontier { for x in 0..4u8 { let mut w = v.clone(); w.push(x); next.push(w); } }
             all.extend(next.iter().cloned());
